@@ -24,6 +24,21 @@ impl<'a> Read for SliceReader<'a> {
         self.pos += n as u64;
         Ok(n)
     }
+
+    // like `<&[u8] as Read>::read_exact` and `Cursor::read_exact`: all or nothing, no retry loop (the default
+    // implementation's loop + `Interrupted` handling puts an io::Error drop at every field read, which dominated
+    // CBMC's symbolic execution: 189 drop-glue expansions for one 52-byte block)
+    fn read_exact(&mut self, out: &mut [u8]) -> IoResult<()> {
+        let len = self.buf.len() as u64;
+        let start = if self.pos < len { self.pos } else { len } as usize;
+        if self.buf.len() - start < out.len() {
+            self.pos = len;
+            return Err(IoError::from(ErrorKind::UnexpectedEof));
+        }
+        out.copy_from_slice(&self.buf[start..start + out.len()]);
+        self.pos += out.len() as u64;
+        Ok(())
+    }
 }
 
 impl<'a> Seek for SliceReader<'a> {
